@@ -391,6 +391,9 @@ pub struct TableCase {
     pub block_size: usize,
     pub variant: usize,
     pub big_values: bool,
+    /// if set, the first put's value is this many incompressible bytes (sweeps the offset of the
+    /// following blocks over every residue of the 2 KiB filter ranges)
+    pub sweep_len: Option<usize>,
 }
 
 pub fn table_entries(c: &TableCase) -> Vec<VerifEntry> {
@@ -399,6 +402,7 @@ pub fn table_entries(c: &TableCase) -> Vec<VerifEntry> {
     let mut seq = total as u64 + 1;
     let mut out = vec![];
     let mut idx = 0usize;
+    let mut swept = false;
     // keys ascending; within a key sequence numbers descending
     let mut pairs: Vec<(usize, usize)> = c.keys.iter().copied().zip(c.patterns.iter().copied()).collect();
     pairs.sort_by(|a, b| ks[a.0].cmp(&ks[b.0]));
@@ -407,7 +411,19 @@ pub fn table_entries(c: &TableCase) -> Vec<VerifEntry> {
         for &is_put in PATTERNS[p] {
             seq -= 1;
             let size = if c.big_values { 3000 } else { VALUE_SIZES[(idx + c.variant) % VALUE_SIZES.len()] };
-            let val: Vec<u8> = if is_put { (0..size).map(|j| ((idx * 37 + j * 11 + 5) & 0xff) as u8).collect() } else { vec![] };
+            let mut val: Vec<u8> = if is_put { (0..size).map(|j| ((idx * 37 + j * 11 + 5) & 0xff) as u8).collect() } else { vec![] };
+            if let (Some(l), true, true) = (c.sweep_len, is_put, !swept) {
+                swept = true;
+                let mut x: u64 = 0x2545F4914F6CDD1D ^ (l as u64);
+                val = (0..l)
+                    .map(|_| {
+                        x ^= x << 13;
+                        x ^= x >> 7;
+                        x ^= x << 17;
+                        (x >> 32) as u8
+                    })
+                    .collect();
+            }
             out.push((ks[k].clone(), seq, is_put, val));
             idx += 1;
         }
@@ -442,7 +458,7 @@ pub fn table_case_json(c: &TableCase) -> Value {
     json!({
         "entries": table_entries(c).iter().map(show_entry).collect::<Vec<_>>(),
         "max_block_size": c.block_size,
-        "keys": c.keys, "patterns": c.patterns, "variant": c.variant, "big_values": c.big_values,
+        "keys": c.keys, "patterns": c.patterns, "variant": c.variant, "big_values": c.big_values, "sweep_len": c.sweep_len,
     })
 }
 
@@ -486,6 +502,37 @@ pub fn table_case(c: &TableCase, shm: &Shm, check_filters: bool, cursor_len: usi
         shm.add(C_NONTRIVIAL, 1);
     }
     shm.max(C_MAX_FILE_ENTRIES, blocks.len() as u64);
+    if check_filters {
+        // C14 (ii): the filter consulted with a block's offset matches every user key in it
+        for (off, _size, es) in blocks.iter() {
+            for e in es {
+                shm.add(C_USER + 2, 1);
+                if t.filter_may_match(*off, &e.0) == Some(false) {
+                    found(
+                        shm,
+                        "C14.block_filter",
+                        &format!("the filter for the block at offset {} answers 'no match' for user key {} stored in that block", off, crate::world::esc(&e.0)),
+                        table_case_json(c),
+                    );
+                    return;
+                }
+                // and the lookup finds every stored (key, seq)
+                match t.get(&e.0, e.1) {
+                    VerifGet::Value(v) if e.2 && v == e.3 => {}
+                    VerifGet::Deleted if !e.2 => {}
+                    o => {
+                        found(
+                            shm,
+                            "C14.lookup_cut_short",
+                            &format!("get({}, {}) on the table that stores it answers {:?}", crate::world::esc(&e.0), e.1, match o { VerifGet::Value(v) => format!("Value({}B)", v.len()), x => format!("{:?}", x) }),
+                            table_case_json(c),
+                        );
+                        return;
+                    }
+                }
+            }
+        }
+    }
     // forward / backward iteration
     let mut it = t.iter();
     let mut fwd = vec![];
@@ -622,37 +669,6 @@ pub fn table_case(c: &TableCase, shm: &Shm, check_filters: bool, cursor_len: usi
             }
         }
     }
-    if check_filters {
-        // C14 (ii): the filter consulted with a block's offset matches every user key in it
-        for (off, _size, es) in blocks.iter() {
-            for e in es {
-                shm.add(C_USER + 2, 1);
-                if t.filter_may_match(*off, &e.0) == Some(false) {
-                    found(
-                        shm,
-                        "C14.block_filter",
-                        &format!("the filter for the block at offset {} answers 'no match' for user key {} stored in that block", off, crate::world::esc(&e.0)),
-                        table_case_json(c),
-                    );
-                    return;
-                }
-                // and the lookup finds every stored (key, seq)
-                match t.get(&e.0, e.1) {
-                    VerifGet::Value(v) if e.2 && v == e.3 => {}
-                    VerifGet::Deleted if !e.2 => {}
-                    o => {
-                        found(
-                            shm,
-                            "C14.lookup_cut_short",
-                            &format!("get({}, {}) on the table that stores it answers {:?}", crate::world::esc(&e.0), e.1, match o { VerifGet::Value(v) => format!("Value({}B)", v.len()), x => format!("{:?}", x) }),
-                            table_case_json(c),
-                        );
-                        return;
-                    }
-                }
-            }
-        }
-    }
 }
 
 pub fn table_cases(max_keys: usize, block_sizes: &[usize], variants: usize) -> Vec<TableCase> {
@@ -688,7 +704,7 @@ pub fn table_cases(max_keys: usize, block_sizes: &[usize], variants: usize) -> V
                 .collect();
             for &b in block_sizes {
                 for variant in 0..variants {
-                    v.push(TableCase { keys: s.clone(), patterns: pats.clone(), block_size: b, variant, big_values: false });
+                    v.push(TableCase { keys: s.clone(), patterns: pats.clone(), block_size: b, variant, big_values: false, sweep_len: None });
                 }
             }
         }
@@ -704,9 +720,16 @@ pub fn filter_table_cases() -> Vec<TableCase> {
         for p in 0..PATTERNS.len() {
             for &b in &[1usize, 16, 2048, 4096, 1 << 20] {
                 for big in [false, true] {
-                    v.push(TableCase { keys: keys.clone(), patterns: keys.iter().map(|_| p).collect(), block_size: b, variant: 0, big_values: big });
+                    v.push(TableCase { keys: keys.clone(), patterns: keys.iter().map(|_| p).collect(), block_size: b, variant: 0, big_values: big, sweep_len: None });
                 }
             }
+        }
+    }
+    // sweep: the first block's length takes every value of a 2 KiB window (+ margin), so the
+    // offsets of the following blocks take every residue modulo the filter range size
+    for l in 1900..=(1900 + 2048 + 200) {
+        for &b in &[1usize, 64] {
+            v.push(TableCase { keys: vec![2, 4, 5, 6], patterns: vec![0, 0, 2, 0], block_size: b, variant: 0, big_values: false, sweep_len: Some(l) });
         }
     }
     v
